@@ -53,7 +53,7 @@ SPEC = dict(
         'thorough tier adds the SASL2 twins of every <response/> state, the remaining mechanism names and client_auth_drop; bounds are the same',
     ],
     assumptions=[
-        'inductive reading: every instance starts from an arbitrary state, so the per-event claims hold along every event sequence; the only state invariant used is "a DIGEST-MD5 object is at step 2 only after a response was verified", which digest_reply_* establish (step 1 -> 2 iff the checker reply reports NoError AND the response equals the RFC 2831 digest over the delivered secret; the reply is an arbitrary (error, digest) pair) and no other event sets; digest_default_* show that the default getDigest delivers a digest only for a successful lookup',
+        'inductive reading: every instance starts from an arbitrary state, so the per-event claims hold along every event sequence; the only state invariant used is "a DIGEST-MD5 object is at step 2 only after a response was verified", which digest_reply_* establish (step 1 -> 2 iff the checker reply reports NoError AND the response equals the RFC 2831 digest over the delivered secret; the reply is an arbitrary (error, digest) pair) and no other event sets; digest_default_* show that the default getDigest reports a failed lookup as an error and otherwise delivers MD5(user:domain:stored password)',
         'QXmppIncomingClient lives in raw storage: QObject part from the shared QObject model, QXmppIncomingClientPrivate built by its real constructor; XmppSocket constructor/sendData/disconnectFromHost, QSslSocket::flush/startServerEncryption and QTimer::start/stop/singleShot are ghost logs/no-ops; every socket write succeeds or fails nondeterministically',
         'signals go through the real moc code into QMetaObject::activate (shared model): emissions are counted per signal; the element handed to routing is compared by node identity with the received one (QDomElement is an explicitly shared handle: stamping happens in place), its from attribute is read after the call',
         'QXmppLoggable: logMessage / updateCounter / setGauge have no effect; log and stream-error texts are not built (QString::arg on patterns > 8 units returns an empty string); QString::arg substitutes exactly for the short JID patterns "%1@%2" and "%1/%2"; QXmppIncomingClientPrivate::origin() (log text) and QXmppIncomingClient::sendStreamFeatures() (content of <stream:features/>) are cut, the latter is counted',
